@@ -155,6 +155,76 @@ def dispersion(model, res):
                             % (name, str(lam)[:100], str(gam)[:100]), line=fi.node.lineno, construct='def %s' % name))
 
 
+def marshak(model, res):
+    """Each eta-mode sin(gamma x + theta) satisfies the homogeneous Marshak condition  u - (2/sqrt 3) u_x = 0  at x = 0
+    exactly when  tan theta = 2 gamma / sqrt 3.  theta_i is coded as acos(a_i) with a_i a closed form of gamma_i:
+    decided is  1 - a_i^2 == (4/3) gamma_i^2 a_i^2  (the square of  sin theta = (2/sqrt 3) gamma cos theta;  both sides are
+    non-negative since gamma_i >= 0 and 0 <= a_i <= 1), for the three (gamma, theta) pairs, with the guards on eta read as
+    identities.  The constant term 1 of usolution then carries the incoming flux."""
+    from ..vg import Builder, Frame
+    from ..nf import NFEval, NAN, Mono, Sum, PW, Struct
+    from ..ratnf import NFSym, is_zero
+    from ..radnf import RadNF, Unsupported
+    from fractions import Fraction
+    mod = model.modules[SUOMOD]
+    for i in ('one', 'two', 'three'):
+        ft = model.get_func('%s:theta_%s' % (SUOMOD, i))
+        fg = model.get_func('%s:gamma_%s' % (SUOMOD, i))
+        if ft is None or fg is None:
+            raise AnalysisError('suolson: theta_%s / gamma_%s vanished' % (i, i))
+        b = Builder(model)
+        b.frame = Frame(None, mod, {}, None)
+        eta, eps = b.mk('param', 'eta'), b.mk('param', 'epsilon')
+        th = b.run_function(ft, [eta, eps])
+        b.frame = Frame(None, mod, {}, None)
+        gm = b.run_function(fg, [eta, eps])
+        ev = NFEval([])
+        for n in b.trace:
+            if n.kind == 'call' and n.val in ('builtins.max', 'builtins.min') and len(n.args) == 2:
+                vals = [ev.nf(a) for a in n.args]
+                for j in (0, 1):
+                    c, o = vals[j], n.args[1 - j]
+                    if n.val == 'builtins.max' and isinstance(c, Mono) and not c.f and 0 < c.coef < 1e-9:
+                        ev.memo[n.nid] = ev.nf(o)
+                    if n.val == 'builtins.min':
+                        cs = c.terms if isinstance(c, Sum) else [c]
+                        if all(isinstance(t, Mono) and not t.f for t in cs):
+                            tot = sum(float(t.coef) for t in cs)
+                            if 1 - 1e-9 < tot < 1:
+                                ev.memo[n.nid] = ev.nf(o)
+        tnf, gnf = ev.nf(th), ev.nf(gm)
+        res.obligations += 1
+        res.evaluations += 1
+        res.nontrivial += 1
+        ok = False
+        if isinstance(tnf, Mono) and tnf.coef == 1 and len(tnf.f) == 1:
+            (k, e), = tnf.f.items()
+            if e == ev.one and k in ev.funcs and ev.funcs[k][0] in ('acos', 'arccos') and gnf is not NAN and not isinstance(gnf, (PW, Struct)):
+                a = ev.funcs[k][1]
+                a2 = ev.mul(a, a)
+                lhs = ev.add(ev.num(1), a2, -1)
+                rhs = ev.mul(ev.num(Fraction(4, 3)), ev.mul(ev.mul(gnf, gnf), a2))
+                sy = NFSym(ev)
+                try:
+                    cx = sy.conv(ev.add(lhs, rhs, -1))
+                    ok = is_zero(cx)
+                    if not ok:
+                        try:
+                            ok = RadNF(sy.units).is_zero(cx)
+                        except Unsupported:
+                            ok = False
+                except TypeError:
+                    ok = False
+        if ok:
+            res.discharged += 1
+            res.sample({'rule': 'C18.marshak', 'function': 'theta_%s' % i, 'identity': 'tan(theta)^2 == 4 gamma^2 / 3'})
+        else:
+            res.add(Finding(PROP, 'C18.marshak', ft.module.relpath, ft.qualname, 'theta_%s: Marshak phase' % i,
+                            "theta_%s is not the phase with tan(theta) = 2 gamma_%s / sqrt(3): the eta-modes sin(gamma x + theta) built "
+                            "with it do not satisfy the homogeneous Marshak condition u - (2/sqrt 3) u_x = 0 at x = 0, so the solution "
+                            "does not meet the incoming-flux boundary condition" % (i, i), line=ft.node.lineno, construct='def %s' % ft.name))
+
+
 def run(model, tier):
     res = Result(PROP)
     res.explanation = (
@@ -167,7 +237,8 @@ def run(model, tier):
         'opacity, specific-heat coefficient and boundary temperature. In addition the normal forms of xpos, tau, epsilon and '
         'the incident energy density must equal the documented conversion (sqrt3*opac*z, 4ac*opac*t/alpha, 4a/alpha, a*T_bc^4) '
         "over so_wave's own constants; the integral representations themselves "
-        '(PDE, Marshak condition) are numeric, except for one structural necessary condition: every eta-mode of the four Fourier '
+        '(PDE, Marshak condition) are numeric, except for two structural necessary conditions: the phase theta_i of every mode is the '
+        'one with tan(theta) = 2 gamma/sqrt(3), i.e. every mode satisfies the homogeneous Marshak condition at x = 0; and every eta-mode of the four Fourier '
         'integrands satisfies the dispersion relation (gamma^2 + 1 - eps*lambda)(1 - lambda) = 1 of the coupled system (decay rate '
         'from the exponential, wavenumber from the sine; radical normal form). History independence of the module globals '
         'posx/tau/epsilon/jwant is decided under C06.')
@@ -202,6 +273,7 @@ def run(model, tier):
     res.nontrivial = S.nontrivial + S.checked
     conversion(model, b, fi, res)
     dispersion(model, res)
+    marshak(model, res)
     res.analysed.append(FN)
     res.extra['inferred'] = {k: S.show(v) for k, v in ev.input_dims.items()}
     for node, what, a, b2 in S.samples[:10]:
